@@ -125,6 +125,41 @@ def run(ctx):
     c12.run(ctx.sub("R06.8", "instance transforms and flattening satisfy the transform rules of C12 (reflect, then rotate, then translate; parent-first cascade)"))
     from rules import C13 as c13
     c13.run(ctx.sub("R06.11", "a label names the net of the shape that contains it: the containment tests satisfy the rules of C13 (segment rectangles with flush ends, polygon structure)"))
+    # ---- R06.12 a label names the shape that CONTAINS it: nothing but the shape's own containment test decides
+    ctx.rule("R06.12", "in the label pass of the layout importer, whether a label becomes an element's net is decided by that element's ShapeTrait::contains alone (besides the layer lookup, loops, and whether the element already has a net): no pre-filter (bounding box, distance, first-hit) may veto or short-cut it")
+    from analysis import ctrl as _ctrl
+    lay2 = select(F, rg.PFX, [rg.IMP, r"^&gds21::GdsStruct$"], r"Result<data::Layout,")
+    n_net = 0
+    for f2 in lay2:
+        b2 = Body(f2)
+        for bi, blk in enumerate(b2.blocks):
+            if blk["cleanup"] or bi not in b2.reachable:
+                continue
+            for st in blk["st"]:
+                if st["k"] != "assign":
+                    continue
+                fs = [e["n"] for e in st["p"]["p"] if isinstance(e, dict) and "f" in e]
+                if not fs or fs[-1] != "net" or not st["p"]["p"] or st["p"]["p"][0] != "*":
+                    continue
+                n_net += 1
+                bad = []
+                for sw in sorted(_ctrl.controlling_switches(b2, bi)):
+                    c = _ctrl.classify_switch(b2, sw)
+                    if c[0] in ("try", "next", "discr"):
+                        continue
+                    if c[0] == "callres" and re.search(r"(HashMap|BTreeMap|SlotMap)::<.*>::(get|get_mut)$", c[1] or ""):
+                        continue
+                    if c[0] == "call" and re.search(r"ShapeTrait>?::contains$|geom::Shape::contains$|geom::ShapeTrait::contains$", c[1] or ""):
+                        continue
+                    if c[0] == "call" and re.search(r"::(is_some|is_none)$", c[1] or ""):
+                        continue
+                    bad.append(c[1].split("::")[-2] + "::" + c[1].split("::")[-1] if c[0] == "call" else str(c[:2]))
+                key = "%s/net-assignment" % f2.short
+                if bad:
+                    ctx.violation("R06.12", key, "%s: whether a label names an element is also decided by %s: a label inside the shape can be refused (or one outside accepted) before the shape's own containment test is asked" % (f2.short, ", ".join(sorted(set(bad)))), b2.site(bi), key)
+                else:
+                    ctx.ok("R06.12", key + "@%d" % bi, "decided by ShapeTrait::contains")
+    ctx.floor("R06.12", "net_assignments", n_net, 1)
     # ---- R06.5 error, not crash
     roots = pr.roots_by_short(F, ("gds::GdsImporter::import",))
     pr.rule_panic_free(ctx, "R06.5", roots, "Library::from_gds", scope_prefixes=["layout21raw::"], floor=5, skip_wide_signed=True)
